@@ -1,13 +1,15 @@
 # --- C14 KMC event selection (huffmanTree via GNode) and Marcus rates (Rate_Engine on
 # Segment/QMPair objects), waiting time (KMCCalculator::Promotetime): the xtp sources under
 # test are compiled into the driver.  kmccalculator.cc also contains LoadGraph & co, which
-# reference Topology/QMNBList (not built here): function sections + --gc-sections drop them,
-# only Promotetime/ChooseHoppingDest and what they call are kept.
+# reference more of xtp: function sections + --gc-sections drop what is not reachable from
+# LoadGraph/Promotetime/ChooseHoppingDest.
 # huffman.cc alone is compiled with -fno-access-control: it reads the thresholds stored in the
 # private huffmanTree::htree and scripts KMCCalculator's private random generator.
 verif_xtp_driver(drv_huffman ${D}/huffman.cc
   ${XTP_SRC}/gnode.cc ${XTP_SRC}/rate_engine.cc ${XTP_SRC}/qmpair.cc ${XTP_SRC}/segment.cc
-  ${XTP_SRC}/atom.cc ${XTP_SRC}/kmccalculator.cc)
+  ${XTP_SRC}/atom.cc ${XTP_SRC}/kmccalculator.cc
+  # LoadGraph needs a Topology with a neighbour list
+  ${XTP_SRC}/topology.cc ${XTP_SRC}/qmnblist.cc ${XTP_SRC}/checkpoint.cc ${XTP_SRC}/qmstate.cc)
 target_link_libraries(drv_huffman PRIVATE VOTCA::votca_csg)
 target_compile_options(drv_huffman PRIVATE -ffunction-sections -fdata-sections)
 target_link_options(drv_huffman PRIVATE -Wl,--gc-sections)
